@@ -8,12 +8,14 @@ definition for S whose name occurs in no statement (and conversely); every set l
 `warn_unused_eq`: for every grammar and shell the model of check.rs accepts, the names in its `unused`
 map are exactly `unusedNames` (proved through the model's specialise / resolve passes,
 `Proofs/Warn.lean`); `warn_unused_spec_eq`: likewise its `unusedSpecs` are exactly
-`unusedSpecNames sh`.  The same equality for the undefined names needs the expansion of definitions
-(dependency order) and is checked per grammar by the run (model = library exactly, library/binary =
-spec).
+`unusedSpecNames sh`; `warn_undefined_eq`: its `undefined` map holds exactly `undefinedNames sh`
+(plus `_`, which is dropped when the warnings are printed) — through `validation_is_meaning` (C02),
+i.e. through the dependency-ordered expansion.  Per grammar the run checks model = library exactly and
+library/binary = spec.
 -/
 import Complgen.Spec.Warn
 import Complgen.Proofs.Warn
+import Complgen.Proofs.Meaning
 namespace Complgen.Props.C15
 open Complgen Complgen.Spec
 
@@ -122,5 +124,11 @@ theorem warn_unused_spec_iff (g : Grammar) (sh : Shell) (v : Check.Valid) (h : C
     n ∈ v.unusedSpecs.map (·.1) ↔
       (∃ sp ss e, Stmt.defn n sp (some (sh.name, ss)) e ∈ g) ∧ n ∉ referred g :=
   (warn_unused_spec_eq g sh v h n).trans (unused_spec_iff sh g n)
+
+/-- **The names the model reports as undefined are what the specification says**: the names that
+still stand for "any word" in the grammar's meaning for the target shell, `_` excepted. -/
+theorem warn_undefined_eq (g : Grammar) (sh : Shell) (v : Check.Valid) (h : Check.validate g sh = .ok v) (n : String) :
+    (n ∈ v.undefined.map (·.1) ∧ n ≠ "_") ↔ n ∈ undefinedNames sh g :=
+  Check.validate_undefined_eq g sh v h n
 
 end Complgen.Props.C15
